@@ -1157,3 +1157,37 @@ def rule_driver_not_bypassed(ctx, rep, rid: str) -> None:
     rep.ok(rid, "string-natives:driver-calls", {"count": len(drivers)})
     if n == 0 and not drivers:
         raise AnalysisError(f"{rid}: neither raw-matcher nor driver calls found in the natives")
+
+
+# ---- the step over an empty match starts from the match, not from where the search started ------------------------
+def rule_step_over_relative_to_match(ctx, rep, rid: str) -> None:
+    """A loop that collects all matches by SEARCHING from a position p finds each match at some index >= p.  After an
+    empty match the next search starts one past the MATCH (AdvanceStringIndex of its end).  `p = end if end > p else
+    p + 1` steps relative to where the search started: an empty match found further on (`$`, `\\b`, a lookahead) lies
+    beyond p + 1 and is found a second time."""
+    rep.rule(rid, "in every loop that searches for matches from a moving position, each new value of the position is computed from the match just found (its index or end), never from the previous position plus a step: an empty match located beyond the search start is stepped over once, not collected twice", floor=1)
+    n = 0
+    scopes = [f for f in ctx.tree.funcs if not isinstance(f.node, ast.Lambda) and (f.module.name == "regex.regex" or (f.parent is not None and f.parent.name == ctx.facts.family_methods().get("_make_string_method", "_make_string_method")) or (f.parent is not None and f.parent.parent is not None and f.parent.parent.name == ctx.facts.family_methods().get("_make_string_method", "_make_string_method")))]
+    for f in scopes:
+        for loop in f.own_nodes():
+            if not isinstance(loop, ast.While):
+                continue
+            # locals that may hold the searching entry point: attempt = vm.match if sticky else vm.search
+            search_names = {t.id for a in f.own_nodes() if isinstance(a, ast.Assign) and any(isinstance(x, ast.Attribute) and x.attr == "search" for x in ast.walk(a.value)) for t in a.targets if isinstance(t, ast.Name)}
+            searches = [c for b in loop.body for c in ast.walk(b) if isinstance(c, ast.Call) and ((isinstance(c.func, ast.Attribute) and c.func.attr == "search") or (isinstance(c.func, ast.Name) and c.func.id in search_names)) and len(c.args) >= 2 and isinstance(c.args[1], ast.Name)]
+            if not searches:
+                continue
+            p = searches[0].args[1].id
+            for a in [x for b in loop.body for x in ast.walk(b) if isinstance(x, (ast.Assign, ast.AugAssign))]:
+                tg = a.targets if isinstance(a, ast.Assign) else [a.target]
+                if not any(isinstance(t, ast.Name) and t.id == p for t in tg):
+                    continue
+                n += 1
+                key = f"{f.qual}:{p} = {short(a.value, 40)}"
+                selfrel = isinstance(a, ast.AugAssign) or any(isinstance(x, ast.BinOp) and isinstance(x.op, ast.Add) and ((isinstance(x.left, ast.Name) and x.left.id == p) or (isinstance(x.right, ast.Name) and x.right.id == p)) for x in ast.walk(a.value))
+                if selfrel:
+                    rep.bad(rid, key, f"{f.qual} searches from `{p}` and then moves it by `{short(a, 50)}`, a step from where the search STARTED: a match can lie further on, and an empty one that does (an end anchor, a word boundary, a lookahead) is then found again - 'ab'.replace(/$/g, 'x') becomes 'abxx'", f"{f.module.rel}:{a.lineno}")
+                else:
+                    rep.ok(rid, key)
+    if n < 1:
+        raise AnalysisError(f"{rid}: no position update in a searching loop found")
